@@ -239,11 +239,31 @@ impl Prop for Bounded {
                     segs.push(b);
                     warm.push(f);
                 }
+                // An oversize frame may be spelled so that what lies *behind* the limit is a decodable
+                // message on its own: legal blanks in front of a small document (for half of the
+                // frames that are big enough). Whatever a reader does after refusing the frame, it
+                // must never hand out a piece of it as if it were a message.
+                let embedded = sized_frame(case.kind, 90);
+                let smuggle = case.dir == Dir::InValid && n >= l + embedded.len() + 10 && world.borrow_mut().tape.draw(2) == 1;
+                // ... and the peer goes on with an ordinary frame afterwards
+                let follow = sized_frame(case.kind, 130);
                 let big: Vec<u8> = if case.dir == Dir::InValid {
-                    let f = sized_frame(case.kind, n);
+                    let f = if smuggle {
+                        world.borrow_mut().stat("oversize_frame_with_a_decodable_tail_behind_the_limit");
+                        let mut f = vec![b' '; n - embedded.len()];
+                        f.extend_from_slice(&embedded);
+                        f
+                    } else {
+                        sized_frame(case.kind, n)
+                    };
                     let mut b = f.clone();
                     b.push(0);
                     segs.push(b);
+                    if n >= l {
+                        let mut b = follow.clone();
+                        b.push(0);
+                        segs.push(b);
+                    }
                     f
                 } else {
                     // unterminated filler: never a NUL
@@ -266,16 +286,20 @@ impl Prop for Bounded {
                 };
                 drop(segs);
                 let results: Rc<RefCell<Vec<Res>>> = Rc::new(RefCell::new(Vec::new()));
+                let after: Rc<RefCell<Vec<Res>>> = Rc::new(RefCell::new(Vec::new()));
                 let read_at_result: Rc<RefCell<Vec<usize>>> = Rc::new(RefCell::new(Vec::new()));
                 {
                     let mut conn = Connection::new(W::socket(world, rd, wr));
                     let mut ex = Exec::new();
                     let r2 = results.clone();
+                    let af = after.clone();
                     let ra = read_at_result.clone();
                     let world2 = world.clone();
                     let kind = case.kind;
                     let count = case.warmup + 1;
+                    let keep_going = case.dir == Dir::InValid;
                     ex.spawn(async move {
+                        let mut last_overflow = false;
                         for _ in 0..count {
                             let r = recv_retrying(&world2, &mut conn, kind).await;
                             let mut w = world2.borrow_mut();
@@ -284,11 +308,40 @@ impl Prop for Bounded {
                                 // every frame is its own burst: all of it has been handed over
                                 w.pipes[rd].consumed_by_app = w.pipes[rd].total_read;
                             }
+                            last_overflow = r == Res::ErrOverflow;
                             r2.borrow_mut().push(r);
                             w.counter += 1;
                         }
+                        if last_overflow && keep_going {
+                            // an application that does not give up after the refusal
+                            for _ in 0..4 {
+                                let r = recv_retrying(&world2, &mut conn, kind).await;
+                                af.borrow_mut().push(r);
+                                world2.borrow_mut().counter += 1;
+                            }
+                        }
                     });
                     ex.run(world);
+                }
+                // After a refusal: errors of any kind, or - at most once - the frame the peer sent
+                // *after* the refused one. Never anything else.
+                {
+                    let want_follow = frames::ref_kind(&follow, case.kind);
+                    let mut seen_follow = false;
+                    for (i, r) in after.borrow().iter().enumerate() {
+                        if let Res::Ok(_) = r {
+                            if *r != want_follow || seen_follow {
+                                return Err((
+                                    "C17/refused-frame-partly-delivered".into(),
+                                    format!("inbound frame of {n} bytes refused with limit {l}{}; receive {} after the refusal returned {:?}, which is not the next frame the peer sent", if smuggle { " (blanks, then a small document behind the limit)" } else { "" }, i + 1, short(&Some(r.clone()))),
+                                ));
+                            }
+                            seen_follow = true;
+                        }
+                    }
+                    if !after.borrow().is_empty() {
+                        world.borrow_mut().stat("receives_continued_after_an_inbound_refusal");
+                    }
                 }
                 let got = results.borrow();
                 for (i, f) in warm.iter().enumerate() {
